@@ -202,7 +202,8 @@ def sum64(fx, fid, ob):
         if nt is None:
             continue
         rty = nt["args"][0].get("ty") or (op_place(nt["args"][0]) or {}).get("ty") or ""
-        if "Range<u32>" not in rty and "RangeInclusive<u32>" not in rty and "Range<u16>" not in rty and "Range<u8>" not in rty:
+        if "Range<u32>" not in rty and "RangeInclusive<u32>" not in rty and "Range<u16>" not in rty and "Range<u8>" not in rty and "core::slice::iter::Iter<" not in rty:
+            # (a slice iterator yields fewer than 2^32 items under A-MEM)
             continue
         inits, steps, bad = [], [], False
         for bb in range(body.n):
